@@ -129,12 +129,18 @@ type c11Case struct {
 	Sub      bool   `json:"sub"`      // features a, b are defined in a submodule
 	Mask     int    `json:"mask"`     // -1: every one of the 16 assignments; else only this one (replay of a shrunk failure)
 	Spacing  string `json:"spacing"`
+	// More: further if-feature statements on the same definition (all of them have to hold)
+	More      []string `json:"more,omitempty"`
+	MoreTrees []*fexpr `json:"more_trees,omitempty"`
 }
 
 var c11Stmts = []string{"leaf", "leaf-list", "container", "list", "choice", "case", "anyxml", "uses", "augment", "refine", "rpc", "notification", "action"}
 
 func c11Yang(c c11Case) (string, map[string]string) {
 	q := "\"" + c.Expr + "\""
+	for _, e := range c.More {
+		q += "; if-feature \"" + e + "\"" // (every use below closes the statement)
+	}
 	var feats, body, extra string
 	files := map[string]string{}
 	if c.Sub {
@@ -239,6 +245,9 @@ func c11Run(c c11Case, o *hx.Obs) {
 	}
 	nops := c.Tree.ops()
 	o.Class("ops=%d", nops)
+	if len(c.More) > 0 {
+		o.Class("several if-feature statements on the definition")
+	}
 	if nops >= 2 || strings.Contains(c.Expr, "(") {
 		o.NonTrivial()
 	}
@@ -258,6 +267,9 @@ func c11Run(c c11Case, o *hx.Obs) {
 			}
 		}
 		want := c.Tree.eval(on)
+		for _, mt := range c.MoreTrees {
+			want = want && mt.eval(on)
+		}
 		cfgs := []struct {
 			name string
 			fs   meta.FeatureSet
@@ -308,12 +320,19 @@ func c11Gen(t *rapid.T) c11Case {
 	sp := rapid.SampledFrom([]string{"", "", " "}).Draw(t, "spacing")
 	c.Tree.render(&b, 0, sp)
 	c.Expr = b.String()
+	if rapid.IntRange(0, 2).Draw(t, "several-statements") == 0 {
+		for i := 0; i < rapid.IntRange(1, 2).Draw(t, "nmore"); i++ {
+			e := genFexpr(t, rapid.IntRange(0, 2).Draw(t, "more-depth"))
+			c.MoreTrees = append(c.MoreTrees, e)
+			c.More = append(c.More, e.String())
+		}
+	}
 	return c
 }
 
 var c11IfFeature = hx.Register(&hx.Check[c11Case]{
 	Name: "c11-if-feature",
-	Rule: "if-feature expressions over features {a,b,c,d} (random trees up to depth 4 with redundant parentheses and varied spacing; all trees with <= 2 operators enumerated in the thorough tier) on 13 guardable statement kinds, features optionally defined in a submodule; each expression is evaluated under all 16 feature assignments, each realised as an allow-list and as a deny-list configuration (and all-on); oracle = recursive descent with RFC 7950 precedence; malformed expressions must fail to load; non-trivial = >= 2 operators or parentheses",
+	Rule: "if-feature expressions over features {a,b,c,d} (random trees up to depth 4 with redundant parentheses and varied spacing; all trees with <= 2 operators enumerated in the thorough tier) on 13 guardable statement kinds, alone or with one or two further if-feature statements on the same definition, features optionally defined in a submodule; each expression is evaluated under all 16 feature assignments, each realised as an allow-list and as a deny-list configuration (and all-on); oracle = recursive descent with RFC 7950 precedence; malformed expressions must fail to load; non-trivial = >= 2 operators or parentheses",
 	Gen:  c11Gen,
 	Run:  c11Run,
 })
